@@ -7,7 +7,7 @@
    quantified [BA RV present create_revert update_revert ba_size rv_size]), Cache/Conc.v (reader
    and committer as interleaved atomic groups). *)
 From Grevm Require Import Base.Util Cache.Status Cache.Revm Cache.Par Cache.Bundle Cache.Conc
-  Cache.SimProofs Cache.ReadProofs Cache.BundleProofs Cache.ConcProofs.
+  Cache.SimProofs Cache.ReadProofs Cache.ReadHistory Cache.BundleProofs Cache.ConcProofs.
 Open Scope N_scope.
 
 (* ------------------------------------------------------------------------------------------
@@ -79,10 +79,31 @@ Theorem C10_transition_keys_unique :
 Proof. exact add_transitions_NoDup. Qed.
 
 (* ------------------------------------------------------------------------------------------
-   reads_do_not_change_answers (sequential).  A cache-filling read returns the pure answer and
-   changes no account, slot or code answer; hence in any sequence of reads every output is the
-   answer in the state before the first of them (order and repetition do not matter). *)
+   reads_do_not_change_answers (sequential).  Full strength: an extra cache-filling read
+   (account, slot or code) inserted anywhere in a history changes no later output - no read value,
+   no transition, no drained balance, no merged TransitionState - whatever commits, increments,
+   drains and merges follow it, and leaves a state with the same answers.  [ext d p q]: q is p
+   plus cache fills.  Hypotheses: [db_wf] (no storage in the database for absent / empty /
+   code-less nonce-less accounts), [code_ok], no panic without the extra read. *)
 Theorem C10_reads_do_not_change_answers :
+  forall d bundle_update ops1 o ops2 outs1 p1 outs2 p2,
+    db_wf d -> is_read o = true -> Forall (code_ok d) ops1 -> Forall (code_ok d) ops2 ->
+    p_run d (p_init bundle_update) ops1 = (outs1, p1) -> ~ In OutPanic outs1 ->
+    p_run d p1 ops2 = (outs2, p2) -> ~ In OutPanic outs2 ->
+    exists q2, p_run d (fst (p_step d p1 o)) ops2 = (outs2, q2) /\
+      (forall a, p_basic_ans d q2 a = p_basic_ans d p2 a) /\
+      (forall a k, p_storage_ans d q2 a k = p_storage_ans d p2 a k) /\
+      (forall h, p_code_ans d q2 h = p_code_ans d p2 h) /\ p_ts q2 = p_ts p2.
+Proof.
+  intros d b ops1 o ops2 outs1 p1 outs2 p2 Hwf Hr Hc1 Hc2 Hrun1 Hnp1 Hrun2 Hnp2.
+  destruct (read_insertion_anywhere d b ops1 o ops2 outs1 p1 outs2 p2 Hwf Hr Hc1 Hc2 Hrun1 Hnp1 Hrun2 Hnp2) as (q2 & Hq & He).
+  exists q2. split; [exact Hq|]. destruct (ext_answers d p2 q2 (db_wf_wf0 d Hwf) He) as (A & B & C).
+  repeat split; auto. apply He.
+Qed.
+
+(* one read: it returns the pure answer and changes no account, slot or code answer
+   (needs only [db_wf0]) *)
+Theorem C10_read_returns_answer :
   forall d p o p' x,
     db_wf0 d -> is_read o = true -> p_step d p o = (p', x) ->
     x = p_answer d p o /\
@@ -91,6 +112,7 @@ Theorem C10_reads_do_not_change_answers :
     (forall h, p_code_ans d p' h = p_code_ans d p h).
 Proof. exact read_step. Qed.
 
+(* any sequence of reads: every output is the answer in the state before the first of them *)
 Theorem C10_read_sequences :
   forall d ops p outs p',
     db_wf0 d -> forallb is_read ops = true -> p_run d p ops = (outs, p') ->
@@ -128,6 +150,19 @@ Example C10_sim_example :
     nth_opt outs 1 = Some (OutWord 7) /\ nth_opt outs 3 = Some (OutWord 0) /\ nth_opt outs 10 = Some (OutWord 1).
 Proof.
   eexists. eexists. split; [vm_compute; reflexivity|]. split; [|repeat split].
+  simpl. intros H. repeat (destruct H as [H|H]; [discriminate|]). exact H.
+Qed.
+
+Lemma ex_db_wf : db_wf ex_db.
+Proof.
+  intros a Ha k. unfold bare, ex_db in *. simpl in *. destruct (a =? 1) eqn:E; [discriminate|reflexivity].
+Qed.
+
+Example C10_read_insertion_example :
+  exists outs p' q', p_run ex_db (p_init true) ex_ops = (outs, p') /\
+    p_run ex_db (fst (p_step ex_db (p_init true) (OStorage 1 6))) ex_ops = (outs, q') /\ ~ In OutPanic outs.
+Proof.
+  eexists. eexists. eexists. split; [vm_compute; reflexivity|]. split; [vm_compute; reflexivity|].
   simpl. intros H. repeat (destruct H as [H|H]; [discriminate|]). exact H.
 Qed.
 
@@ -270,6 +305,7 @@ Print Assumptions C10_bundle_builder_eq.
 Print Assumptions C10_bundle_history_eq.
 Print Assumptions C10_transition_keys_unique.
 Print Assumptions C10_reads_do_not_change_answers.
+Print Assumptions C10_read_returns_answer.
 Print Assumptions C10_read_sequences.
 Print Assumptions C10_cache_coherent.
 Print Assumptions C10_ghost_is_committed.
